@@ -23,14 +23,17 @@ ScoreEvent(e) ==
      /\ e.facts.data = SubSeq(e.in.msg, 1, len - 8)
      /\ Score1Conforms(e.out.score, z, len)
 
+Cancellable(e) == "cancel_ms" \in DOMAIN e.in
+
 MineEvent(e) ==
   LET len == Len(e.in.data) + 8
   IN /\ ~e.out.crashed                                  \* Mine must not take the process down
      /\ e.facts.data = e.in.data
-     /\ e.out.ok
-     /\ LET z == TrailingZeros(PowHash(e.facts.digest, e.out.nonce))
-        IN /\ Score1Conforms(e.out.score, z, len)       \* Score(data ++ nonce) is 3^z / len ...
-           /\ TargetMet(e.out.score, e.in.target)       \* ... and meets the target
+     /\ Cancellable(e) \/ e.out.ok                      \* (a call whose context may end early may also return the cancellation error)
+     /\ e.out.ok =>
+         LET z == TrailingZeros(PowHash(e.facts.digest, e.out.nonce))
+         IN /\ Score1Conforms(e.out.score, z, len)       \* Score(data ++ nonce) is 3^z / len ...
+            /\ TargetMet(e.out.score, e.in.target)       \* ... and meets the target: a nonce returned WITHOUT error always does
      /\ e.out.data_intact                              \* the caller's data is only read
 
 \* white box: lane j has exactly tz[j] trailing zero trits; first lane with >= n zeros, else 64
@@ -50,9 +53,10 @@ Mine2Event(e) ==
   LET len == Len(e.in.data) + 8
       lx == BNMulInt(e.in.target, len)
       s == Sufficient(lx)
-  IN /\ ~e.out.crashed /\ e.out.ok
+  IN /\ ~e.out.crashed /\ (Cancellable(e) \/ e.out.ok)
      /\ e.facts.data = e.in.data
-     /\ IF e.in.target = <<>> THEN Len(e.out.nonce) = 8                            \* target 0: every nonce qualifies
+     /\ IF ~e.out.ok THEN TRUE                                                     \* (only possible for a cancellable call)
+        ELSE IF e.in.target = <<>> THEN Len(e.out.nonce) = 8                       \* target 0: every nonce qualifies
         ELSE /\ Qualifies(PowHash(e.facts.digest, e.out.nonce), lx)               \* sound
              \* single worker: no earlier block of 64 nonces holds a strictly qualifying nonce
              /\ e.in.workers = 1 =>
